@@ -1601,3 +1601,81 @@ package spec
 //@   requires (forall k string :: oCnt(jv(data), k) > 0 ==> knownKey("OperationProps", k) || isExtKey(k)) && (forall k string :: knownKey("OperationProps", k) ==> !isExtKey(k))
 //@   ensures  [C01] lossless @@ result != nil ==> sameObject(jv(result), jv(data))
 //@   ensures  [C19] required-kept @@ result != nil ==> requiredPresent(jv(result), "operation")
+
+// ---- Schema
+//@ define schemaKey(k string) bool = knownKey("SchemaProps", k) || knownKey("SwaggerSchemaProps", k)
+//@ define seenName(c []string, n int, k string) bool = exists i int :: 0 <= i && i < n && c[i] == k
+//@ ext (*github.com/go-openapi/swag.NameProvider).GetJSONNames
+//@   params n, subject
+//@   assigns nothing
+//@   ensures holds(subject, "*Schema") ==> (forall i int :: 0 <= i && i < len(result) ==> schemaKey(result[i])) && hasAllKeys(result, "SchemaProps") && hasAllKeys(result, "SwaggerSchemaProps")
+//@ define refMemberCnt(r Ref) int = (refStringV(r) != "" || isRootV(r)) ? 1 : 0
+
+//@ func (Schema).MarshalJSON
+//@   property C01, C06, C07
+//@   assigns  nothing
+//@   ensures  [C01] shape @@ result1 == nil ==> result0 != nil && isObj(jv(result0))
+//@   ensures  [C01,C06] members @@ result1 == nil ==> (forall k string :: oCnt(jv(result0), k) == fieldsCnt(s.SchemaProps, k) + fieldsCnt(s.SwaggerSchemaProps, k)
+//@               + (has(s.Extensions, k) && isExtKey(k) ? 1 : 0) + (k == "$ref" ? refMemberCnt(s.Ref) : 0) + (k == "$schema" && s.Schema != "" ? 1 : 0) + (s.ExtraProps != nil && has(s.ExtraProps, k) ? 1 : 0))
+//@   ensures  [C01] values @@ result1 == nil ==> (forall k string :: oCnt(jv(result0), k) == 1 ==> oVal(jv(result0), k) ==
+//@               (fieldsCnt(s.SchemaProps, k) > 0 ? fieldsVal(s.SchemaProps, k) : (fieldsCnt(s.SwaggerSchemaProps, k) > 0 ? fieldsVal(s.SwaggerSchemaProps, k) :
+//@                (has(s.Extensions, k) && isExtKey(k) ? encOf(s.Extensions[k]) : (k == "$ref" && refMemberCnt(s.Ref) == 1 ? encOf(refStringV(s.Ref)) : (k == "$schema" && s.Schema != "" ? encOf(str(s.Schema)) : encOf(s.ExtraProps[k])))))))
+
+// what is left of the generic map after $ref, $schema and the keywords are deleted
+// url.Parse followed by String(): the $schema member is re-printed, not normalised
+//@ define reprintStr(x string) string = urlStr(urlScheme(x), urlHost(x), urlPath(x), urlQuery(x), urlFrag(x))
+//@ func (*SchemaURL).fromMap
+//@   property C01, C07
+//@   requires r != nil
+//@   assigns  *r
+//@   ensures  [C01] string-url-reprinted @@ v != nil && has(v, "$schema") && holds(v["$schema"], "string") && urlOK(asString(v["$schema"])) ==> result == nil && str(*r) == reprintStr(asString(v["$schema"]))
+//@   ensures  [C07] invalid-url-is-error @@ v != nil && has(v, "$schema") && holds(v["$schema"], "string") && !urlOK(asString(v["$schema"])) ==> result != nil && *r == old(*r)
+//@   ensures  [C07] other-shapes-ignored @@ v == nil || !has(v, "$schema") || !holds(v["$schema"], "string") ==> result == nil && *r == old(*r)
+
+//@ define schemaRest(j smt:JV, k string) bool = oCnt(j, k) > 0 && k != "$ref" && k != "$schema" && !schemaKey(k)
+//@ func (*Schema).UnmarshalJSON
+//@   property C01, C07
+//@   requires s != nil
+//@   assigns  *s
+//@   ensures  [C07] non-object-is-error @@ !isObj(jv(data)) ==> result != nil
+//@   ensures  [C07] decodable-object-accepted @@ isObj(jv(data)) && fieldsDecOK(jv(data), "SchemaProps") && fieldsDecOK(jv(data), "SwaggerSchemaProps") ==> result == nil
+//@   ensures  [C07] failure-leaves-target @@ result != nil ==> *s == old(*s)
+//@   ensures  [C01] keywords-decoded @@ result == nil ==> decodedFields(jv(data), s.SchemaProps) && decodedFields(jv(data), s.SwaggerSchemaProps)
+//@   ensures  [C01] ref-parsed @@ result == nil && oCnt(jv(data), "$ref") > 0 && jIsStr(oVal(jv(data), "$ref")) && urlOK(decOf("string", oVal(jv(data), "$ref"))) ==>
+//@               s.Ref.referenceURL != nil && refStringV(s.Ref) == canonStr(decOf("string", oVal(jv(data), "$ref")))
+//@   ensures  [C01] no-ref-no-reference @@ result == nil && oCnt(jv(data), "$ref") == 0 ==> refStringV(s.Ref) == "" && !isRootV(s.Ref)
+//@   ensures  [C01] schema-url-parsed @@ result == nil && oCnt(jv(data), "$schema") > 0 && jIsStr(oVal(jv(data), "$schema")) && urlOK(decOf("string", oVal(jv(data), "$schema"))) ==>
+//@               str(s.Schema) == reprintStr(decOf("string", oVal(jv(data), "$schema")))
+//@   ensures  [C01] no-schema-url @@ result == nil && oCnt(jv(data), "$schema") == 0 ==> s.Schema == ""
+//@   ensures  [C01] extensions-kept @@ result == nil ==> (forall k string :: schemaRest(jv(data), k) && isExtKey(k) ==> has(s.Extensions, k) && s.Extensions[k] == decOf("interface{}", oVal(jv(data), k)))
+//@   ensures  [C01] unknown-keywords-kept @@ result == nil ==> (forall k string :: schemaRest(jv(data), k) && !isExtKey(k) ==> s.ExtraProps != nil && has(s.ExtraProps, k) && s.ExtraProps[k] == decOf("interface{}", oVal(jv(data), k)))
+//@   ensures  [C07] only-extensions @@ result == nil ==> (forall k string :: has(s.Extensions, k) ==> schemaRest(jv(data), k) && isExtKey(k))
+//@   ensures  [C07] only-unknown-keywords @@ result == nil ==> (forall k string :: s.ExtraProps != nil && has(s.ExtraProps, k) ==> schemaRest(jv(data), k) && !isExtKey(k))
+//@   loop 0 invariant 0 <= $i0 && $i0 <= len($range0) && freshObj(d)
+//@   loop 0 invariant d != nil && (forall k string :: has(d, k) == (oCnt(jv(data), k) > 0 && k != "$ref" && k != "$schema" && !seenName($range0, $i0, k)))
+//@   loop 0 invariant forall k string :: has(d, k) ==> d[k] == decOf("interface{}", oVal(jv(data), k))
+//@   loop 1 invariant d != nil && (forall k string :: has(d, k) == schemaRest(jv(data), k)) && (forall k string :: has(d, k) ==> d[k] == decOf("interface{}", oVal(jv(data), k)))
+//@   loop 1 invariant freshObj(d) && (sch.Extensions == nil || freshObj(sch.Extensions)) && (sch.ExtraProps == nil || freshObj(sch.ExtraProps)) && sch.Extensions != d && sch.ExtraProps != d && (sch.Extensions == nil || sch.Extensions != sch.ExtraProps)
+//@   loop 1 invariant forall k string :: $seen1[k] && isExtKey(k) ==> has(sch.Extensions, k) && sch.Extensions[k] == d[k]
+//@   loop 1 invariant forall k string :: $seen1[k] && !isExtKey(k) ==> sch.ExtraProps != nil && has(sch.ExtraProps, k) && sch.ExtraProps[k] == d[k]
+//@   loop 1 invariant forall k string :: sch.Extensions != nil && has(sch.Extensions, k) ==> $seen1[k] && isExtKey(k)
+//@   loop 1 invariant forall k string :: sch.ExtraProps != nil && has(sch.ExtraProps, k) ==> $seen1[k] && !isExtKey(k)
+
+// normal form of a schema object: keywords in normal form, a canonical $ref, a re-printable $schema, extensions and
+// unknown keywords that re-encode to themselves, and no clash between the classes of member names
+//@ define nfSchemaURLMember(j smt:JV) bool = oCnt(j, "$schema") > 0 ==> jIsStr(oVal(j, "$schema")) && urlOK(decOf("string", oVal(j, "$schema"))) && decOf("string", oVal(j, "$schema")) != ""
+//@       && reprintStr(decOf("string", oVal(j, "$schema"))) == decOf("string", oVal(j, "$schema")) && encOf(decOf("string", oVal(j, "$schema"))) == oVal(j, "$schema")
+//@ define nfUnknownKeywords(j smt:JV) bool = forall k string :: schemaRest(j, k) ==> encOf(decOf("interface{}", oVal(j, k))) == oVal(j, k)
+//@ func verifLemmaSchemaRoundTrip
+//@   property C01, C19
+//@   chained
+//@   requires isObj(jv(data)) && noDuplicates(jv(data))
+//@   requires nfKind(jv(data), "SchemaProps", "schema") && nfKind(jv(data), "SwaggerSchemaProps", "schema") && nfRefMember(jv(data)) && nfSchemaURLMember(jv(data)) && nfUnknownKeywords(jv(data))
+//@   requires (forall k string :: schemaKey(k) ==> !isExtKey(k) && k != "$ref" && k != "$schema") && !isExtKey("$ref") && !isExtKey("$schema")
+//@   ensures  [C01] json-schema-keywords-kept @@ result != nil ==> eachKey("SchemaProps", k, oCnt(jv(result), k) == oCnt(jv(data), k) && (oCnt(jv(data), k) > 0 ==> oVal(jv(result), k) == oVal(jv(data), k)))
+//@   ensures  [C01] swagger-keywords-kept @@ result != nil ==> eachKey("SwaggerSchemaProps", k, oCnt(jv(result), k) == oCnt(jv(data), k) && (oCnt(jv(data), k) > 0 ==> oVal(jv(result), k) == oVal(jv(data), k)))
+//@   ensures  [C01] keywords-kept @@ result != nil ==> (forall k string :: schemaKey(k) ==> oCnt(jv(result), k) == oCnt(jv(data), k) && (oCnt(jv(data), k) > 0 ==> oVal(jv(result), k) == oVal(jv(data), k)))
+//@   ensures  [C01] ref-kept @@ result != nil ==> oCnt(jv(result), "$ref") == oCnt(jv(data), "$ref") && (oCnt(jv(data), "$ref") > 0 ==> oVal(jv(result), "$ref") == oVal(jv(data), "$ref"))
+//@   ensures  [C01] schema-url-kept @@ result != nil ==> oCnt(jv(result), "$schema") == oCnt(jv(data), "$schema") && (oCnt(jv(data), "$schema") > 0 ==> oVal(jv(result), "$schema") == oVal(jv(data), "$schema"))
+//@   ensures  [C01] other-members-kept @@ result != nil ==> (forall k string :: !schemaKey(k) && k != "$ref" && k != "$schema" ==> oCnt(jv(result), k) == oCnt(jv(data), k) && (oCnt(jv(data), k) > 0 ==> oVal(jv(result), k) == oVal(jv(data), k)))
+//@   ensures  [C01] lossless @@ result != nil ==> sameObject(jv(result), jv(data))
